@@ -125,6 +125,9 @@ func (s *RelationshipPatternVisitor) EnterOC_RangeLiteral(ctx *parser.OC_RangeLi
 				state = stateSecondIndex
 				s.RelationshipPattern.Range.EndIndex = nil
 
+			case parser.CypherLexerSP:
+				// The grammar allows whitespace (and comments) between the tokens of a range literal
+
 			default:
 				s.ctx.AddErrors(fmt.Errorf("unexpected token in pattern range: %s", typedTokenLeaf.GetText()))
 			}
